@@ -10,6 +10,7 @@
 from __future__ import annotations
 
 import io
+import json
 import os
 import shutil
 import traceback
@@ -386,6 +387,14 @@ class Runner:
                         self._fail('C14', 'import-mapping', f'mapping sends source key of cid {oc} to destination key of cid {nc}')
                     out.append(oc if oc is not None else -1)
                 return f'mapped={show_nats(sorted(out))}'
+            if kind == 'plantDup':
+                # a stray copy in duplicates/, as a writer leaves it when it cannot replace an existing loose file
+                import uuid  # pylint: disable=import-outside-toplevel
+
+                for ident in op['ids']:
+                    with open(os.path.join(rc.folder, 'duplicates', f'{rc.key(op["k"])}.{uuid.UUID(int=ident)}'), 'wb') as fh:
+                        fh.write(self.pool.contents[op['k']])
+                return 'ok'
             if kind == 'damage':
                 path = rc.raw().loose_paths.get(rc.key(op['k']))
                 if path is None:
@@ -438,7 +447,7 @@ class Runner:
             return f'store op {n} loosen {op["k"]}'
         if kind == 'reopen':
             return f'store op {n} reopen'
-        if kind == 'reinit':
+        if kind in ('reinit', 'plantDup'):
             return None
         if kind == 'import':
             src = self.conts[op['src']]
@@ -803,7 +812,12 @@ def _oracle_modes(self, rc, op, pre, post, real_out):
     """direct oracles of C10 (modes), C11 (delete / repack compaction), C13 (numbering), C14 (import)"""
     kind = op['op']
     if real_out.startswith('raised'):
-        self._fail('C02', f'op-raised-{kind}', f'{kind} raised: {real_out}')
+        # an operation of a fault-free history raised: a failing input for the map property and for the property that
+        # specifies this very operation
+        owners = {'delete': ['C11'], 'repack': ['C11', 'C10'], 'repackOne': ['C11', 'C10'], 'import': ['C14'], 'packAll': ['C10', 'C16'],
+                  'clean': ['C16'], 'addLoose': ['C01', 'C09'], 'addPacked': ['C01', 'C09', 'C13']}
+        for prop in ['C02'] + owners.get(kind, []):
+            self._fail(prop, f'op-raised-{kind}', f'{kind} raised: {real_out} ({json.dumps({k: v for k, v in op.items() if k in ("ks", "cs", "c", "mode", "p")})})')
         return
     pre_rows = {r[1]: r for r in pre.rows}
     post_rows = {r[1]: r for r in post.rows}
@@ -861,7 +875,17 @@ def _oracle_modes(self, rc, op, pre, post, real_out):
                 last_before = max([r[3] for r in pre.rows if str(r[2]) == name] + [0])
                 if last_before >= rc.cfg.target or len(old) >= rc.cfg.target and new[:len(old)] == old and len(new) > len(old):
                     self._fail('C13', f'full-written-{kind}', f'pack {name} had reached the target ({len(old)} >= {rc.cfg.target}) and was written again')
+    if kind == 'delete':
+        req = {rc.key(k) if isinstance(k, int) else k for k in op['ks']}
+        left = [d for d in post.duplicates if d.partition('.')[0] in req]
+        if left:
+            self._fail('C11', 'delete-duplicate-left', f'delete_objects left the stray duplicate file {left[0][:18]}… of a deleted key')
+        gone = [d for d in pre.duplicates if d.partition('.')[0] not in req and d not in post.duplicates]
+        if gone:
+            self._fail('C11', 'delete-duplicate-extra', f'delete_objects removed the duplicate {gone[0][:18]}… of a key that was not requested')
     if kind == 'clean':
+        if post.duplicates:
+            self._fail('C11', 'clean-duplicate-left', f'clean_storage left {len(post.duplicates)} stray duplicate files of existing objects')
         # cleaning = the single-key rule applied to every key: a loose file whose object is packed is removed, others stay
         left = [k for k in post.loose_bytes if k in post_rows]
         if left:
